@@ -84,7 +84,20 @@ impl BuildJob<'_> {
     ) -> Result<Pin<Box<dyn Future<Output = i32> + 'a>>, RedoError> {
         let before_t = try_stat(self.t.as_path()).map_err(RedoError::opaque_error)?;
         debug_assert!(self.lock.is_owned());
-        let (is_target, dirty) = (self.should_build_func)(&mut ptx, &self.t)?;
+        let (is_target, dirty) = match (self.should_build_func)(&mut ptx, &self.t) {
+            Ok(verdict) => verdict,
+            Err(e) => match immediate_exit_code(&e) {
+                // The target was refused (for example, it already failed
+                // earlier in this run).  That is the result of this job, like
+                // a failing .do script; whether the remaining targets are
+                // still built is up to --keep-going, not to us.
+                Some(code) => {
+                    log_err!("{}\n", e);
+                    return Ok(Box::pin(future::ready(code)));
+                }
+                None => return Err(e),
+            },
+        };
         match dirty {
             Dirtiness::Clean => {
                 // Target doesn't need to be built; skip the whole task.
@@ -895,6 +908,21 @@ where
     // the above loop.
     job_futures.fold((), |_, _| future::ready(())).await;
     result.replace(Ok(()))
+}
+
+/// Returns the exit code of the first [`RedoErrorKind::ImmediateExit`] in the
+/// error's source chain, if any.
+fn immediate_exit_code(e: &RedoError) -> Option<i32> {
+    let mut next: Option<&(dyn std::error::Error + 'static)> = Some(e);
+    while let Some(err) = next {
+        if let Some(RedoErrorKind::ImmediateExit(code)) =
+            err.downcast_ref::<RedoError>().map(|e| e.kind())
+        {
+            return Some(*code);
+        }
+        next = err.source();
+    }
+    None
 }
 
 /// Polls a future and a stream, discarding any results from the stream.
